@@ -97,12 +97,44 @@ def classify_exception(kind, e, rho2, s, d, style):
     return f"C02:displacement-raises-{name}"
 
 
+def back_to_back(acc, pot, pristine, sep, mid, budget, speed, wit, label):
+    """The same potential object asked at ONE separation for other directions, speeds and budgets in a row must answer like
+    a never-queried deep copy asked once (no memory between calls), and must not modify the caller's velocity."""
+    import copy
+    for d, sp, b in [(0, speed, budget), (1, speed, budget), (2, speed, budget), (2, speed, 2.0 * budget), (0, 2.0 * speed, budget),
+                     (0, speed, 0.5 * budget)]:
+        vel = [0.0] * 3
+        vel[d] = sp
+        a_sep, a_vel = list(sep), list(vel)
+        try:
+            g = pot.displacement(a_vel, a_sep, *mid, b)
+            ref = copy.deepcopy(pristine).displacement(list(vel), list(sep), *mid, b)
+        except Exception:
+            return      # totality is judged by the main sweep with a classified witness
+        acc.count("back_to_back_queries")
+        # (displacement() is declared to take a MutableSequence and legitimately consumes its separation argument - the
+        # attractive branches move it to the closest approach in place - so only the velocity is required to stay intact)
+        if a_vel != vel:
+            acc.violation("C02:displacement-call-mutates-its-arguments",
+                          f"{label}: displacement(v={vel}, s={list(sep)}) left v={a_vel} in the caller's velocity",
+                          dict(wit, b2b=[d, sp, b]))
+            return
+        if g != ref and not (g != g and ref != ref):
+            acc.violation("C02:result-depends-on-earlier-queries",
+                          f"{label}: asked right after another direction/speed/budget at the same separation {list(sep)}, "
+                          f"displacement(v={vel}, budget={b!r}) = {g!r}; a never-queried copy gives {ref!r}",
+                          dict(wit, b2b=[d, sp, b]))
+            return
+
+
 def check_radial(acc, rng, kind, flavor):
     from vf.jf import init_setting
     L = rng.choice([1.0, 1.0, 3.7, 0.37, 10.0])
     init_setting(3, [L] * 3)
     pot, mk, params = make_potential(rng, kind, L)
-    for _ in range(40):
+    import copy
+    pristine = copy.deepcopy(pot)
+    for it in range(40):
         d = rng.randrange(3)
         speed = rng.choice([1.0, 1.0, 0.5, 3.0, 1e-3, 1e3])
         c1, c2 = (rng.choice([1.0, -1.0, 0.5, 2.0]), rng.choice([1.0, -1.0, 0.41])) if kind == "inverse_power" else (1.0, 1.0)
@@ -123,6 +155,8 @@ def check_radial(acc, rng, kind, flavor):
         geo = f"{kind}:{'front' if s[d] <= 0 else 'behind'}:" + \
               ("na" if not params["r0"] else ("inside" if math.sqrt(rho2 + s[d] ** 2) < params["r0"] else "outside"))
         br[geo] = br.get(geo, 0) + 1
+        if it % 8 == 3 and 1e-300 < budget < 1e300:
+            back_to_back(acc, pot, pristine, s, (c1, c2) if kind == "inverse_power" else (), budget, speed, wit, f"{kind}{params}")
         try:
             t = pot.displacement(*args)
         except Exception as e:
@@ -198,7 +232,9 @@ def check_c_bound(acc, rng, flavor):
     from jellyfysh.potential.inverse_power_coulomb_bounding_potential import InversePowerCoulombBoundingPotential
     k = rng.choice([1.5837, 1.5837, 531.2, 1.6])
     pot = InversePowerCoulombBoundingPotential(prefactor=k)
-    for _ in range(60):
+    import copy
+    pristine = copy.deepcopy(pot)
+    for it in range(60):
         d = rng.randrange(3)
         speed = rng.choice([1.0, 0.5, 2.0])
         c1, c2 = rng.choice([1.0, -1.0, 0.41, -0.82]), rng.choice([1.0, -1.0, 0.41])
@@ -226,6 +262,8 @@ def check_c_bound(acc, rng, flavor):
         acc.case(("c_bound", tuple(s), d, budget, q), nontrivial=True)
         acc.count("calls")
         acc.count("calls_c_bound")
+        if it % 8 == 3 and 1e-300 < budget < 1e300:
+            back_to_back(acc, pot, pristine, s, (c1, c2), budget, speed, wit, f"C bound (L={L}, q={q!r})")
         try:
             t = pot.displacement(vel, list(s), c1, c2, budget)
         except Exception as e:
